@@ -425,7 +425,19 @@ func (t *Table) checkExpressions(input QueryInput) {
 		return
 	}
 
-	expressions := []string{input.KeyConditionExpression, input.FilterExpression}
+	if input.KeyConditionExpression != "" {
+		schema := t.KeySchema
+		if index, ok := t.Indexes[input.Index]; ok {
+			schema = index.keySchema
+		}
+
+		err := t.LangInterpreter.CheckKeyCondition(input.KeyConditionExpression, input.Aliases, schema.HashKey, schema.RangeKey)
+		if err != nil {
+			panic(err)
+		}
+	}
+
+	expressions := []string{input.FilterExpression}
 	if input.ConditionExpression != nil {
 		expressions = append(expressions, *input.ConditionExpression)
 	}
